@@ -34,6 +34,7 @@ fn main() {
                 "C17" => gen_prog::gen_c17(tier, seed, &mut out),
                 "C18" => gen_prog::gen_c18(tier, seed, &mut out),
                 "C19" => gen_fuzz::gen_c19(tier, seed, &mut out),
+                "C20" => gen_fuzz::gen_c20(tier, seed, &mut out),
                 _ => {
                     eprintln!("unknown property {}", prop);
                     std::process::exit(2);
